@@ -100,17 +100,11 @@ func ruleDeltaAtomic(c *Ctx, ix *PkgIndex, rule string) {
 		}
 		g := ix.FG(fn)
 		key := "aggregate|(*" + a.typ + ").delta|read-out, emptying of values and start = t in one critical section on every path"
-		reads := g.Match(func(n ast.Node) bool {
-			if e, ok := n.(ast.Expr); ok && isField(info, e, fVals) {
-				return true
-			}
-			// helper that reads the map (copyDpts)
-			if call, ok := n.(*ast.CallExpr); ok {
-				if cf := callee(info, call); cf != nil && cf.Name() == "copyDpts" {
-					return true
-				}
-			}
-			return false
+		// the read-out: a direct read of the map, or a call of a helper of the package that reads it (copyDpts, a shared
+		// snapshot routine, …)
+		reads, _ := ix.effectNodes(fn, func(n ast.Node) bool {
+			e, ok := n.(ast.Expr)
+			return ok && isField(info, e, fVals)
 		})
 		empt := g.Match(func(n ast.Node) bool { return isEmptying(info, n, fVals) })
 		var tvar types.Object
@@ -464,6 +458,35 @@ func c02(c *Ctx) {
 		})
 		key := shortPkg(ix.Pkg.PkgPath) + "|" + fname + "|" + what + " on every iteration"
 		if len(calls) == 0 {
+			// the loop may live in a helper of the package that this function calls on every path
+			for _, x := range g.Match(func(n ast.Node) bool {
+				call, ok := n.(*ast.CallExpr)
+				if !ok {
+					return false
+				}
+				h := ix.declByObj(callee(info, call))
+				return h != nil && h != fn && len(ix.FG(h).Match(func(m ast.Node) bool { hc, ok := m.(*ast.CallExpr); return ok && isTarget(info, hc) })) > 0
+			}) {
+				var h *FuncInfo
+				inspectNoLit(x.N, func(n ast.Node) bool {
+					if call, ok := n.(*ast.CallExpr); ok {
+						if d := ix.declByObj(callee(info, call)); d != nil && d != fn {
+							h = d
+						}
+					}
+					return true
+				})
+				if h != nil {
+					fn, g = h, ix.FG(h)
+					calls = g.Match(func(n ast.Node) bool {
+						call, ok := n.(*ast.CallExpr)
+						return ok && isTarget(info, call)
+					})
+					break
+				}
+			}
+		}
+		if len(calls) == 0 {
 			c.Violation("R5", key, at(ix.M, fn.Pos()), "fan-out call not found")
 			return
 		}
@@ -547,22 +570,36 @@ func c02(c *Ctx) {
 				valP = sig.Params().At(i)
 			}
 		}
-		good := false
-		inspectNoLit(fn.Body(), func(n ast.Node) bool {
-			call, ok := n.(*ast.CallExpr)
-			if !ok || len(call.Args) != 3 {
+		// the measure call receives the value parameter — here, or in a helper of the package that is handed the value unchanged
+		var passes func(f *FuncInfo, vp *types.Var, depth int) bool
+		passes = func(f *FuncInfo, vp *types.Var, depth int) bool {
+			ok2 := false
+			inspectNoLit(f.Body(), func(n ast.Node) bool {
+				call, ok := n.(*ast.CallExpr)
+				if !ok {
+					return true
+				}
+				if v, isV := objOf(minfo, call.Fun).(*types.Var); isV && len(call.Args) == 3 {
+					if nn := namedOf(v.Type()); nn != nil && nn.Obj().Name() == "Measure" {
+						ok2 = vp != nil && sameVar(minfo, call.Args[1], vp)
+						return true
+					}
+				}
+				if depth > 0 {
+					if h := mx.declByObj(callee(minfo, call)); h != nil && h != f {
+						hs := h.Obj.Type().(*types.Signature)
+						for i, a := range call.Args {
+							if vp != nil && sameVar(minfo, a, vp) && i < hs.Params().Len() && passes(h, hs.Params().At(i), depth-1) {
+								ok2 = true
+							}
+						}
+					}
+				}
 				return true
-			}
-			v, isV := objOf(minfo, call.Fun).(*types.Var)
-			if !isV {
-				return true
-			}
-			if nn := namedOf(v.Type()); nn == nil || nn.Obj().Name() != "Measure" {
-				return true
-			}
-			good = valP != nil && sameVar(minfo, call.Args[1], valP)
-			return true
-		})
+			})
+			return ok2
+		}
+		good := passes(fn, valP, 1)
 		c.Check(good, "R10", "sdk/metric|"+nm+"|measure called with the caller's value", at(mx.M, fn.Pos()), "value passed through", "the value handed to the aggregators is not the recorded one")
 	}
 
@@ -1125,6 +1162,21 @@ func ruleMeasureAtomic(c *Ctx, ax *PkgIndex, rule string) {
 		if fn == nil || fVals == nil {
 			continue
 		}
+		isWrite0 := func(n ast.Node) bool {
+			as, ok := n.(*ast.AssignStmt)
+			if !ok {
+				return false
+			}
+			for _, l := range as.Lhs {
+				if ie, ok := unparen(l).(*ast.IndexExpr); ok && isField(info, ie.X, fVals) {
+					return true
+				}
+			}
+			return false
+		}
+		// the look-up-or-create step may live in a helper measure calls with the lock held: read and write-back are then both
+		// in that helper, which takes and releases no lock itself
+		fn, _ = ax.workFunc(fn, isWrite0)
 		g := ax.FG(fn)
 		mu := varKey(fn.Recv()) + resolvePath(ax.Pkg, sp.typ, sp.mu)
 		isWrite := func(n ast.Node) bool {
